@@ -16,7 +16,8 @@ def _nontrivial_ops(lhs):
     return False
 
 
-def ops_streams(ctx, res, env_extra=None, backends=("serial", "sse", "avx2"), only=None):
+def ops_streams(ctx, res, env_extra=None, backends=None, only=None):
+    backends = backends or ("serial",) + cl.simd_backends()
     specs = [dict(name="ops", backend=b) for b in backends]
     exes, errs = cl.build_harnesses(specs)
     for k, e in errs.items():
@@ -120,6 +121,18 @@ print(json.dumps(out))
         found.append({"kind": "table-row", "line": "table w=%s row=%s p=%s" % (b.get("w"), b.get("row"), b.get("p")),
                       "false_facts": b["false_facts"],
                       "note": "row fact recomputed with exact integer arithmetic on the table as compiled from /repo"})
+    if not found:
+        # every row fact holds: the broken obligation is about the arithmetic ON the rows — run the functors on every row
+        # with fresh seeds and more draws (the quotient-estimate worst-case class is generated for every row)
+        flt = lambda l: l.split(" ", 1)[0] in ("mulmod", "muladd", "cshoup", "mulshoup4", "muladdshoup5", "addmod", "submod")
+        for s in range(3):
+            r2 = cl.StreamResult()
+            ops_streams(ctx, r2, env_extra={"VERIF_ALLROWS": "1", "VERIF_NRAND": "6", "VERIF_NOSTRUCT": "1",
+                                            "VERIF_SEED": str(ctx["seed"] * 1000 + 31 + s)}, backends=("serial",), only=flt)
+            for sf in r2.specfail[:10]:
+                found.append({"kind": "spec", **sf})
+            if found:
+                break
     return found
 
 
@@ -132,9 +145,10 @@ PROPS = {
         "assumptions": ["inputs in the range the property states (x,y,z < p; any word where the property says so)"],
     },
     "C06": {
-        "streams": streams_C06, "search": search_C06,
+        "streams": streams_C06, "search": search_C06, "translators": translators_C03,
         "rule": "tables regenerated from params.hpp as compiled; every row checked in the Lean kernel; plus library arithmetic (mulmod, compute_shoup, Shoup product, addmod) on every row against the model that uses the generated rows; distinct = distinct op lines",
-        "trusted_base": COMMON_TB + ["tools/gen_params.py + harness/dump_params.cpp print the tables the compiler sees", "sympy supplies Pratt-certificate hints only (kernel re-checks them)"],
+        "trusted_base": COMMON_TB + ["tools/gen_params.py + harness/dump_params.cpp print the tables the compiler sees", "sympy supplies Pratt-certificate hints only (kernel re-checks them)",
+                                     "the 'hence exact arithmetic' clause is proved about the functor bodies re-translated from the source on every run (tools/gen_ops_ast.py, clang AST, CSem.lean): Nfl.C03Ast.*_ast hold for every row of the regenerated tables"],
         "assumptions": ["kMaxPolyDegree is a power of two (checked by kMaxNN theorems)"],
     },
 }
